@@ -62,7 +62,7 @@ Record maint_rec := { mt_paused : bool; mt_should_leave : bool; mt_light : bool 
 Inductive dval :=
 | VHost (h : host) | VHosts (l : list host) | VSwitch (s : switch_rec) | VMaint (m : maint_rec)
 | VBool (b : bool) | VTime (t : Z) | VPriority (p : Z) | VStreamFrom (o : option host)
-| VUnit | VZ (z : Z) | VOpt (enabled : bool) | VOpaque (code : Z).
+| VUnit | VZ (z : Z) | VOpt (enabled : bool) | VResetup (status : bool) (update_time : Z) | VOpaque (code : Z).
 
 Inductive call :=
 | Sql (h : host) (s : stmt)
